@@ -91,7 +91,18 @@ func (st *programState) runBalancesQuery() error {
 	// reset batch query
 	st.CurrentBalanceQuery = BalanceQuery{}
 
-	st.CachedBalances = balances
+	// add what was fetched to the cache, without forgetting (or overwriting)
+	// what previous queries already taught us
+	for account, accountBalances := range balances {
+		cached := defaultMapGet(st.CachedBalances, account, func() AccountBalance {
+			return AccountBalance{}
+		})
+		for asset, amount := range accountBalances {
+			if _, ok := cached[asset]; !ok {
+				cached[asset] = amount
+			}
+		}
+	}
 	return nil
 }
 
